@@ -73,6 +73,7 @@ inductive Err
   | ioDriverRead (d : Nat)
   | ioDriverWrite (d : Nat)
   | retainStore
+  | executionTimeout
   | other (n : Nat)
 deriving DecidableEq, Repr
 
@@ -336,6 +337,9 @@ structure RState (σ δ : Type) where
   env : δ
   /-- `DebugControl`'s queue of pending I/O writes (drained by `read_cycle_inputs`) -/
   dbgQ : List (Addr × Value)
+  /-- `DebugControl`'s forced I/O values (`force_io` / `release_io`), applied by
+  `apply_forced_values` in both `read_cycle_inputs` and `write_cycle_outputs` -/
+  forced : List (Addr × Value)
   now : Int
   cycles : Nat
 
@@ -425,6 +429,13 @@ def phaseDebug : Phase σ δ := fun s =>
   let r := applyWrites s.dbgQ s.io
   { st := { s with dbgQ := [], io := r.1 }, evs := [], err := r.2 }
 
+/-- `apply_forced_values` (I/O part): `for (address, value) in forced.io { io.write(..)?; }`.
+Runs after the debug writes in `read_cycle_inputs` and after the binding publish in
+`write_cycle_outputs`. -/
+def phaseForce : Phase σ δ := fun s =>
+  let r := applyWrites s.forced s.io
+  { st := { s with io := r.1 }, evs := [], err := r.2 }
+
 /-- `read_cycle_inputs`, `interface.read_inputs(storage)`. -/
 def phaseLatch (sem : Sem σ δ) : Phase σ δ := fun s =>
   let r := sem.latch s.io s.store
@@ -467,8 +478,8 @@ def runPhases : List (Phase σ δ) → RState σ δ → PRes σ δ
       { st := r2.st, evs := r.evs ++ r2.evs, err := r2.err }
 
 def cyclePhases (sem : Sem σ δ) : List (Phase σ δ) :=
-  [phaseRead sem, phaseDebug, phaseLatch sem, phaseTasks sem, phasePublish sem, phaseWrite sem,
-   phasePersist sem]
+  [phaseRead sem, phaseDebug, phaseForce, phaseLatch sem, phaseTasks sem, phasePublish sem, phaseForce,
+   phaseWrite sem, phasePersist sem]
 
 /-- `Runtime::execute_cycle`.  `err = some e` is `Err(e)`, `none` is `Ok(())`. -/
 def executeCycle (sem : Sem σ δ) (s : RState σ δ) : PRes σ δ :=
@@ -493,6 +504,8 @@ inductive Op
   | setWatchdog (a : WatchdogAction)
   | setSafe (s : List (Addr × Value))
   | dbgWrite (a : Addr) (v : Value)
+  | forceIo (a : Addr) (v : Value)
+  | releaseIo (a : Addr)
   | restart (m : RestartMode)
   | clearFault
 deriving Repr
@@ -503,6 +516,10 @@ def Op.resets : Op → Bool
   | .clearFault => true
   | _ => false
 
+/-- `DebugControl::force_io`: replace the value of an address already forced, else append. -/
+def forceSet (f : List (Addr × Value)) (a : Addr) (v : Value) : List (Addr × Value) :=
+  if f.any (fun p => p.1 == a) then f.map (fun p => if p.1 == a then (p.1, v) else p) else f ++ [(a, v)]
+
 def step (sem : Sem σ δ) (s : RState σ δ) : Op → PRes σ δ
   | .cycle => executeCycle sem s
   | .advance dt => { st := { s with now := s.now + dt }, evs := [], err := none }
@@ -512,6 +529,9 @@ def step (sem : Sem σ δ) (s : RState σ δ) : Op → PRes σ δ
   | .setWatchdog a => { st := { s with wdAction := a }, evs := [], err := none }
   | .setSafe sf => { st := { s with safe := sf }, evs := [], err := none }
   | .dbgWrite a v => { st := { s with dbgQ := s.dbgQ ++ [(a, v)] }, evs := [], err := none }
+  | .forceIo a v => { st := { s with forced := forceSet s.forced a v }, evs := [], err := none }
+  | .releaseIo a =>
+    { st := { s with forced := s.forced.filter (fun p => !(p.1 == a)) }, evs := [], err := none }
   | .restart m =>
     { st := { s with store := sem.reinit m s.store, now := 0, cycles := 0, faulted := false,
                      lastFault := none },
@@ -570,6 +590,9 @@ structure Cfg where
   initVars : List Int
   /-- `RetainStore::store` call indices that fail; `none` = no retain store configured -/
   retain : Option (List Nat)
+  /-- clock values at which the harness runs the cycle with an execution deadline in the past
+  (`set_execution_deadline`): the first statement of the first program reports `ExecutionTimeout` -/
+  expiredAt : List Int
 deriving Repr
 
 structure CStore where
@@ -668,7 +691,8 @@ def execStmts (n : Nat) : List Stmt → CStore → Nat → CStore × Nat × Opti
 
 /-- `execute_program` of generated program `p`: header `n := n + 1; steps := steps + 1;
 cnt := 1`, then the body. -/
-def exec (cfg : Cfg) (_now : Int) (p : Nat) (st : CStore) : CStore × Nat × Option Err :=
+def exec (cfg : Cfg) (now : Int) (p : Nat) (st : CStore) : CStore × Nat × Option Err :=
+  if cfg.expiredAt.contains now then (st, 0, some .executionTimeout) else
   let n := st.ns.getD p 0 + 1
   let st := { st with ns := st.ns.set p n, steps := st.steps + 1 }
   execStmts n (cfg.progs.getD p []) st 1
@@ -718,7 +742,8 @@ def initEnv (cfg : Cfg) : CEnv :=
 
 def initState (cfg : Cfg) (io : Io) (t0 : Int) : RState CStore CEnv :=
   { faulted := false, lastFault := none, policy := .halt, wdAction := .safeHalt, safe := [],
-    io := io, store := initStore cfg t0, env := initEnv cfg, dbgQ := [], now := t0, cycles := 0 }
+    io := io, store := initStore cfg t0, env := initEnv cfg, dbgQ := [], forced := [], now := t0,
+    cycles := 0 }
 
 end Conc
 
